@@ -1,0 +1,44 @@
+//go:build verif
+
+package stdlib
+
+// Contracts for property C13/C06: the restricted replacements of the process-exit entry
+// points never return normally (they panic) — checked by /verif/govc. Comments only.
+
+//@ func osExit(code)
+//@   props C13 C06
+//@   panics when true
+//@   ensures never-returns: false
+
+//@ func logFatal(v)
+//@   props C13 C06
+//@   panics when true
+//@   ensures never-returns: false
+
+//@ func logFatalf(f, v)
+//@   props C13 C06
+//@   panics when true
+//@   ensures never-returns: false
+
+//@ func logFatalln(v)
+//@   props C13 C06
+//@   panics when true
+//@   ensures never-returns: false
+
+//@ func (l *logLogger) Fatal(v)
+//@   props C13 C06
+//@   opt safety = off
+//@   panics when true
+//@   ensures never-returns: false
+
+//@ func (l *logLogger) Fatalf(f, v)
+//@   props C13 C06
+//@   opt safety = off
+//@   panics when true
+//@   ensures never-returns: false
+
+//@ func (l *logLogger) Fatalln(v)
+//@   props C13 C06
+//@   opt safety = off
+//@   panics when true
+//@   ensures never-returns: false
